@@ -97,3 +97,40 @@ def auto_inserting(repo, cg, ginfo):
             if any(b.split('.')[-1] == 'defaultdict' for b in bases):
                 return True, '%s inherits defaultdict.__missing__ (stores)' % cid
     return False, 'plain container'
+
+
+FS_PATH_SINKS = {
+    'os.remove': 0, 'os.unlink': 0, 'os.rmdir': 0, 'os.removedirs': 0, 'os.makedirs': 0, 'os.mkdir': 0,
+    'os.rename': (0, 1), 'os.replace': (0, 1), 'os.truncate': 0, 'os.chmod': 0,
+    'shutil.rmtree': 0, 'shutil.copy': 1, 'shutil.copyfile': 1, 'shutil.copy2': 1, 'shutil.move': (0, 1),
+    'shutil.copytree': 1,
+}
+
+
+def fs_sinks(repo, cg, fn):
+    """File-system write effects in fn: list of (call, what, [path exprs])."""
+    from .util import const_val, NOVAL
+    out = []
+    for c in ast.walk(fn):
+        if not isinstance(c, ast.Call) or repo.func_of(c) is not fn:
+            continue
+        names = [t[1] for t in cg.resolve(c.func, fn) if t[0] == 'ext']
+        d = dotted(c.func) or ''
+        if any(n in ('io.open', 'builtins.open', 'codecs.open') for n in names) or d == 'open':
+            mode = 'r'
+            if len(c.args) > 1:
+                mode = const_val(c.args[1])
+            for k in c.keywords:
+                if k.arg == 'mode':
+                    mode = const_val(k.value)
+            if mode is NOVAL or any(ch in str(mode) for ch in 'wax+'):
+                out.append((c, 'open(mode=%r)' % (None if mode is NOVAL else mode), [c.args[0]] if c.args else []))
+            continue
+        for n in names:
+            if n in FS_PATH_SINKS:
+                idx = FS_PATH_SINKS[n]
+                idx = idx if isinstance(idx, tuple) else (idx,)
+                out.append((c, n, [c.args[i] for i in idx if i < len(c.args)]))
+            elif n in ('nbformat.write',) and len(c.args) > 1:
+                out.append((c, n, [c.args[1]]))
+    return out
